@@ -294,6 +294,36 @@ static void destroy_watchlist(Tickit *t, TickitWatch *watches, void (*cancelfunc
   }
 }
 
+/* A snapshot of a watch list, for loops whose callbacks may cancel watches of
+ * the list being walked. Watches are not reference counted: before it uses an
+ * entry the loop asks watch_is_linked() whether it is still there
+ */
+static size_t snapshot_watchlist(TickitWatch *watches, TickitWatch ***snapshotp)
+{
+  size_t n = 0;
+  for(TickitWatch *this = watches; this; this = this->next)
+    n++;
+
+  TickitWatch **snapshot = n ? malloc(n * sizeof(TickitWatch *)) : NULL;
+  if(!snapshot)
+    n = 0;
+
+  size_t i = 0;
+  for(TickitWatch *this = watches; this && i < n; this = this->next)
+    snapshot[i++] = this;
+
+  *snapshotp = snapshot;
+  return n;
+}
+
+static bool watch_is_linked(TickitWatch *watches, TickitWatch *watch)
+{
+  for(TickitWatch *this = watches; this; this = this->next)
+    if(this == watch)
+      return true;
+  return false;
+}
+
 static void invoke_watch(TickitWatch *watch, TickitEventFlags flags, void *info)
 {
   /* the callback may cancel, and thereby free, the watch */
@@ -645,9 +675,14 @@ void *tickit_watch_signal(Tickit *t, int signum, TickitBindFlags flags, TickitCa
 
 static int on_sigchld(Tickit *t, TickitEventFlags flags, void *info, void *data)
 {
-  TickitWatch *this, *next;
-  for(this = t->processes; this; this = next) {
-    next = this->next;
+  /* Walk a snapshot of the list: a callback may cancel any process watch */
+  TickitWatch **watches;
+  size_t n = snapshot_watchlist(t->processes, &watches);
+
+  for(size_t i = 0; i < n; i++) {
+    TickitWatch *this = watches[i];
+    if(!watch_is_linked(t->processes, this)) // cancelled by a callback in the meantime
+      continue;
 
     TickitProcessWatchInfo info;
     if(waitpid(this->process.pid, &info.wstatus, WNOHANG) <= 0)
@@ -656,6 +691,8 @@ static int on_sigchld(Tickit *t, TickitEventFlags flags, void *info, void *data)
     info.pid = this->process.pid;
     invoke_watch(this, TICKIT_EV_FIRE, &info);
   }
+
+  free(watches);
   return 0;
 }
 
@@ -880,11 +917,22 @@ void tickit_evloop_invoke_processwatch(TickitWatch *watch, TickitEventFlags flag
 
 void tickit_evloop_invoke_sigwatches(Tickit *t, int signum)
 {
-  TickitWatch *this;
-  for(this = t->signals; this; this = this->next) {
+  /* Walk a snapshot of the list, so that a callback may cancel any signal
+   * watch - its own included - while the others are still to be invoked
+   */
+  TickitWatch **watches;
+  size_t n = snapshot_watchlist(t->signals, &watches);
+
+  for(size_t i = 0; i < n; i++) {
+    TickitWatch *this = watches[i];
+    if(!watch_is_linked(t->signals, this)) // cancelled by a callback in the meantime
+      continue;
+
     if(this->signal.signum == signum)
       (*this->fn)(this->t, TICKIT_EV_FIRE, NULL, this->user);
   }
+
+  free(watches);
 }
 
 void tickit_evloop_sigwinch(Tickit *t)
